@@ -57,3 +57,18 @@ Proof.
   intros c t' Hin. destruct (tables_ok_bundled_have_level _ _ _ _ tables_ok_bundle Hin) as [pl [Hpl _]].
   rewrite Hpl. discriminate.
 Qed.
+
+(* DetermineEnabledAggregateRules: the same over the rules that define `aggregate` *)
+Lemma bundle_enabled_aggregate_list_exact user custom p bundled_agg custom_agg t :
+  user_wf user = true ->
+  (forall c t', In (c, t') bundled_agg -> In (c, t') bundled_rules) ->
+  let merged := linter_config provided_rules user custom in
+  In t (determine_enabled_aggregate_rules p merged bundled_agg custom_agg) <->
+  (exists c, In (c, t) bundled_agg /\ builtin_can_report p merged c t false false = true) \/
+  (exists c, In (c, t) custom_agg /\ custom_can_report p merged c t false = true).
+Proof.
+  intros Hwf Hsub. unfold determine_enabled_aggregate_rules.
+  apply (enabled_list_exact_gen provided_rules user custom p bundled_agg (fun _ _ => false) custom_agg t Hwf).
+  intros c t' Hin. destruct (tables_ok_bundled_have_level _ _ _ _ tables_ok_bundle (Hsub _ _ Hin)) as [pl [Hpl _]].
+  rewrite Hpl. discriminate.
+Qed.
